@@ -357,6 +357,27 @@ def run_flatten(sh, case, driver='flatten'):
                 if not (np.array_equal(x, y, equal_nan=True) if x.dtype.kind == 'f' else np.array_equal(x, y)):
                     vs.append({'mechanism': 'flatten_dfs:value-changed', 'message': 'column %s' % c})
                     break
+    if res is not None and not vs and not two_d and len(flat_labels) >= 2:
+        # the same table objects grouped again under OTHER labels (the first call may have left a label column in them): every
+        # row must carry the label given in THIS call
+        relab = ['again_%s' % l for l in flat_labels[::-1]]
+        try:
+            with quiet():
+                res2 = flatten_dfs(arg, relab if case.get('labels_as') == 'list' else np.array(relab), column_name=name) if name != 'Label' \
+                    else flatten_dfs(arg, relab if case.get('labels_as') == 'list' else np.array(relab))
+            attach.count('C18:flatten_second_call_on_the_same_tables')
+            exp2 = []
+            for t, l in zip(arg, relab):
+                exp2 += [(int(u), l) for u in t['__uid'].to_numpy().tolist()]
+            got2 = list(zip(res2['__uid'].to_numpy().tolist(), res2[name].to_numpy().tolist())) if len(res2) else []
+            if [g[0] for g in got2] != [e_[0] for e_ in exp2]:
+                vs.append({'mechanism': 'flatten_dfs:order-or-rows', 'message': 'second call on the same tables: row provenance differs'})
+            elif [str(g[1]) for g in got2] != [str(e_[1]) for e_ in exp2]:
+                i = [str(g[1]) == str(e_[1]) for g, e_ in zip(got2, exp2)].index(False)
+                vs.append({'mechanism': 'flatten_dfs:stale-label-on-second-call',
+                           'message': 'second call on the same tables: row %d carries %r, the label given in this call is %r' % (i, got2[i][1], exp2[i][1])})
+        except Exception as e:
+            vs.append({'mechanism': 'flatten_dfs:' + attach.exc_mechanism(e), 'message': 'second flatten_dfs call on the same tables raised %r' % (e,)})
     for v in vs:
         sh.violate({k: case[k] for k in case if k != 'tables'} | {'n_tables': len(flat_labels)}, v, driver)
 
